@@ -6,11 +6,14 @@ CONSTANTS
   OneHitEnc = TRUE
   ScoreNone = TRUE
   HeapTakeover = 10
-  MaxCalls = 3
+  MaxCalls = 2
   NTerms = 3
   Family = "deep"
   DropK1 = TRUE
   Queries <- MCQueries
+  FixEmptySnapshot = FALSE
+  FixBoolAdvance = FALSE
+  FixShouldMin = FALSE
   FirstAdvanceOK <- FirstAdvNoQ2
 VIEW View
 INVARIANT ResultOK
